@@ -246,8 +246,21 @@ func (r *repeat) more(s bitStream) bool {
 	pCont := r.pContinue
 	if r.count < r.minCount {
 		pCont = 1
-	} else if r.forceStop || r.count >= r.maxCount {
+	} else if r.count >= r.maxCount {
 		pCont = 0
+	} else if r.forceStop {
+		pCont = 0
+		if r.pContinue < 1 {
+			// The rejections which forced the stop are discarded from the recorded bitstream,
+			// so the stop has to be justified by the bits that remain: flip the regular coin
+			// (discarding the flips that say "continue") until it says "stop".
+			for flipBiasedCoin(s, r.pContinue) {
+				s.endGroup(r.group, true)
+				r.group = s.beginGroup(r.label, true)
+			}
+			s.endGroup(r.group, false)
+			return false
+		}
 	}
 
 	cont := flipBiasedCoin(s, pCont)
